@@ -196,9 +196,11 @@ func faultCaseMode(ctx context.Context, w *out.W, c *Case, m Mode, root string, 
 		changes, err = client.SchemaDiff(cur, des, schema.DiffNormalized())
 	}
 	nPlan := -1
+	var creates []string
 	if err == nil {
 		if p, perr := client.PlanChanges(ctx, "x", changes); perr == nil {
 			nPlan = len(p.Changes)
+			_, creates = planKinds(ctx, client, changes)
 		}
 	}
 	client.Close()
@@ -354,7 +356,7 @@ func faultCaseMode(ctx context.Context, w *out.W, c *Case, m Mode, root string, 
 				}
 				if fcode == 5 && fr.exit != 0 {
 					fr.tieCase, _ = tieCase(ctx, before, cur, changes, m.FK, "none", fidx)
-					fr.tieObs = tieObs(before, got, "prefix")
+					fr.tieObs = withCreates(tieObs(before, got, "prefix"), creates)
 				}
 			}
 			runs[i] = fr
